@@ -17,7 +17,14 @@ by a genuine strategy makes the "upper bound" unsound.
 
 Inputs of the exact part are dyadic rationals, so every float operation of the implementation is exact and
 equality with the Lean rational is demanded; a third input class has non-dyadic probabilities, there the exact
-value of the *floats* is sent to Lean and only the final accumulation is compared with 1e-12."""
+value of the *floats* is sent to Lean and only the final accumulation is compared with 1e-12.
+
+Stream `seesaw` (harness/corr/c07_seesaw.py; Lean: `seesaw_objectives_agree`, `seesaw_contains_det`, `seesaw_loop_returns_max`, `seesaw_loop_stop_rule`,
+and for the meaning of the points `seesaw_point_is_quantum`, `npa_sound_seesaw`, `seesaw_value_le_npa_bound`): the cvxpy problems built by
+`__optimize_alice` / `__optimize_bob` are captured, exact dyadic assemblages / POVMs are written into their variables, every captured constraint must
+hold and the captured objective must equal the exact `sum prob * pred * Re tr(B^H A)` computed by the Lean model; per-constraint negative controls; the
+outer loop of `quantum_value_lower_bound` is replayed by the model on the recorded (and on scripted) solver values.  Sub-stream `npa/seesaw-point`
+(in `work_npa_embed`): a feasible point of the see-saw programs, dilated to commuting projectors as in the proofs, is fed to the captured NPA problem."""
 from __future__ import annotations
 
 import copy
@@ -31,6 +38,7 @@ import numpy as np
 from ..common import CorrespondenceBroken, InfraError
 from ..exact import Pure, case_rng, describe, present_nd
 from ..pool import Result, fold, run_pool, worker_driver
+from . import c07_seesaw
 
 RULE = ("games (ao, bo, ai, bi) with every size in 1..4 drawn by the seeded generator (corpus first: the two minimal "
         "games on which the enumeration bound matters, CHSH, odd-cycle-like and fractional games), predicates 0/1-valued, "
@@ -61,6 +69,12 @@ ASSUMPTIONS = [
     "computation of cvxpy) <= 1e-9; objective against the exact rational value <= 1e-12; random quantum strategies (float) <= 1e-9",
     "the iteration order of the Python set `conf` in _gen_words is an input to the model (conf_order); the model's own order is first insertion",
 ]
+
+RULE = RULE + " || " + c07_seesaw.RULE_SEESAW + (
+    " || npa/seesaw-point: per embedded NPA problem one seeded feasible point of the see-saw programs (assemblage in dimension 2 with tau singular for odd seeds, "
+    "random non-projective Bob POVMs), dilated numerically to commuting projectors exactly as in the Lean proof, moments fed to the captured constraints (1e-7)"
+    " || classical: every case is also evaluated by the mirror WITH the multiprocessing branch (c07_classical_value_code); from_bcs_game with reps = 2 and the empty-list rejection")
+ASSUMPTIONS = ASSUMPTIONS + c07_seesaw.ASSUMPTIONS_SEESAW
 
 TOL_IP = 2e-5
 TOL_SCS = 1e-3
@@ -207,6 +221,12 @@ def check_classical(ctx, prob, pred, reps, kind, tag="rand"):
     if "reject" in m_cur or "reject" in m_fix:
         raise InfraError(f"driver rejected a valid game: {m_cur} {shape}")
     spec = _frac(m_fix["value"])
+    # the mirror WITH the branch `if num_iterations > 1000: pool else: loop` (Model/GamesExtra.lean; proved equal to the loop-only
+    # mirror and to the specification: classicalValueCode_eq_maxDet, pool_branch_eq_loop)
+    m_code = lean.ask("c07_classical_value_code", args)
+    if "reject" in m_code or _frac(m_code["value"]) != spec:
+        raise InfraError(f"Lean: classicalValueCode {m_code} != classicalValueFixed {spec} (proved equal) on {desc}")
+    ctx.count("classical/code-mirror-branch=" + ("pool" if it_fix > 1000 else "loop"))
     if pairs <= 20000:
         m_brute = lean.ask("c07_max_det", args)
         ctx.count("classical/brute-force-oracle")
@@ -360,21 +380,21 @@ def rand_constraint(rng, n, values):
             return full
 
 
-def check_bcs(ctx, n, cons, dtype="int"):
+def check_bcs(ctx, n, cons, dtype="int", reps=1):
     from toqito.nonlocal_games.nonlocal_game import NonlocalGame
 
     arrs = [np.array(c, dtype=float if dtype == "float" else int).reshape((2,) * n) for c in cons]
     flat = [[int(v) for v in np.asarray(c).reshape(-1)] for c in cons]
-    desc = {"fn": "from_bcs_game", "n": n, "constraints": flat, "dtype": dtype}
+    desc = {"fn": "from_bcs_game", "n": n, "constraints": flat, "dtype": dtype, "reps": reps}
     dep = [[bool(np.diff(a, axis=i).any()) for i in range(n)] for a in arrs]
-    ctx.case(desc, any(not all(d) for d in dep) and len({tuple(f) for f in flat}) > 1, f"bcs/n={n}/m={len(cons)}")
-    prng = case_rng("c07/bcs", n, flat, dtype)
+    ctx.case(desc, any(not all(d) for d in dep) and len({tuple(f) for f in flat}) > 1, f"bcs/n={n}/m={len(cons)}" + ("" if reps == 1 else f"/reps={reps}"))
+    prng = case_rng("c07/bcs", n, flat, dtype, reps)
     # each constraint tensor independently: layout, and int64 / float64 / bool (0/1-valued tables) as the values allow
     parrs = [present_nd(prng, a, bool_ok=True) for a in arrs]
     desc["presentation"] = describe(parrs)
     guard = Pure(parrs)
     try:
-        game = NonlocalGame.from_bcs_game(parrs)
+        game = NonlocalGame.from_bcs_game(parrs) if reps == 1 else NonlocalGame.from_bcs_game(parrs, reps)
     except Exception as e:  # noqa: BLE001
         ctx.violation(f"from_bcs_game raised {type(e).__name__}: {str(e)[:200]}",
                       {"function": "NonlocalGame.from_bcs_game", "args": desc, "impl": repr(e)[:300], "theorem": "bcs_pred_iff"})
@@ -382,10 +402,10 @@ def check_bcs(ctx, n, cons, dtype="int"):
     if guard.modified():
         ctx.violation("NonlocalGame.from_bcs_game: caller's arguments were modified",
                       {"function": "NonlocalGame.from_bcs_game", "args": desc, "modified": guard.modified()})
-    m = ctx.lean().ask("c07_bcs_game", {"n": n, "constraints": flat})
+    m = ctx.lean().ask("c07_bcs_game", {"n": n, "constraints": flat, "reps": reps})
     if "reject" in m:
         raise InfraError(f"driver rejected BCS system: {m}")
-    ok = list(game.pred_mat.shape) == m["shape"] and _fl(game.pred_mat) == [_frac(v) for v in m["pred"]] and list(game.prob_mat.shape) == m["shape"][2:]
+    ok = game.reps == m["reps"] and list(game.pred_mat.shape) == m["shape"] and _fl(game.pred_mat) == [_frac(v) for v in m["pred"]] and list(game.prob_mat.shape) == m["shape"][2:]
     if ok:
         for u, v in zip(np.asarray(game.prob_mat).reshape(-1), m["prob"]):
             if abs(Fraction(float(u)) - _frac(v)) > Fraction(1, 2 ** 50):
@@ -419,6 +439,23 @@ def constructors(ctx, quick):
         check_odometer(ctx, old, lim)
     # CHSH as a BCS game, then random systems
     check_bcs(ctx, 2, [[1, 0, 0, 1], [0, 1, 1, 0]], "float")
+    # `from_bcs_game(constraints, reps)`: the BCS tensors go through the constructor's `reps` branch (constraints of different arity)
+    check_bcs(ctx, 2, [[1, 0, 0, 1], [0, 0, 1, 1]], "int", 2)
+    for _ in range(3 if quick else 20):
+        nv = int(rng.integers(2, 4))
+        mm = int(rng.integers(1, 3))
+        check_bcs(ctx, nv, [rand_constraint(rng, nv, (0, 1)).reshape(-1).tolist() for _ in range(mm)], str(rng.choice(["int", "float"])), 2)
+    # the documented rejection: an empty constraint list
+    from toqito.nonlocal_games.nonlocal_game import NonlocalGame as _NG
+    ctx.case({"fn": "from_bcs_game_empty"}, False, "bcs/empty")
+    mrej = ctx.lean().ask("c07_bcs_game", {"n": 2, "constraints": []})
+    try:
+        _NG.from_bcs_game([])
+        ctx.violation("from_bcs_game([]) did not raise (documented: 'At least 1 constraint is required')",
+                      {"function": "NonlocalGame.from_bcs_game", "args": {"fn": "from_bcs_game_empty"}, "model": mrej, "theorem": "bcs_prob_spec (0 < m)"})
+    except ValueError:
+        if mrej.get("reject") != "NoConstraint":
+            raise InfraError(f"driver did not reject an empty BCS system: {mrej}")
     for _ in range(60 if quick else 400):
         nv = int(rng.integers(2, 5))
         m = int(rng.integers(1, 5))
@@ -944,6 +981,13 @@ def work_npa_embed(task, res):
     # (iv) numerically: moments of random commuting projective measurements on a random state
     for seed in task.get("quantum_seeds", []):
         _quantum_embed(task, res, P, rvar, mvars, code_words, seed)
+    # (v) numerically: a feasible point of the see-saw programs (assemblage + POVMs, tau singular for every other seed), dilated to a
+    # commuting projective strategy exactly as in the Lean proof (seesaw_point_is_quantum / naimark_dilation), must be feasible as well
+    for seed in task.get("quantum_seeds", [])[:1]:
+        if len(P.constraints) <= 1200:          # evaluating a captured problem costs ~1 ms per constraint; the big level-2 problems keep (iv) only
+            _seesaw_point_embed(task, res, P, rvar, mvars, code_words, seed)
+        else:
+            res.count("npa/seesaw-point/skipped-large-problem")
 
 
 def _rand_unitary(rng, d):
@@ -1003,6 +1047,106 @@ def _quantum_embed(task, res, P, rvar, mvars, code_words, seed):
         res.violation(f"captured NPA objective {obj!r} differs from the winning probability {value!r} of the quantum strategy (seed {seed})",
                       {"function": "commuting_measurement_value_upper_bound (objective, quantum strategy)", "args": desc, "impl": obj, "model": value,
                        "theorem": "objective = winning probability"})
+
+
+def _rand_povm(rng, d, n_out):
+    """n_out positive semidefinite d x d matrices summing to the identity (not projective)"""
+    gs = [rng.normal(size=(d, d)) + 1j * rng.normal(size=(d, d)) for _ in range(n_out)]
+    ms = [g @ g.conj().T for g in gs]
+    tot = sum(ms)
+    w, v = np.linalg.eigh(tot)
+    inv_sqrt = v @ np.diag(w ** -0.5) @ v.conj().T
+    return [inv_sqrt @ m @ inv_sqrt for m in ms]
+
+
+def _psd_fun(h, f):
+    w, v = np.linalg.eigh((h + h.conj().T) / 2)
+    return v @ np.diag([f(max(t, 0.0)) for t in w]) @ v.conj().T
+
+
+def _naimark(povm):
+    """the projectors P_a = U^H Pi_a U of Toq/Proofs/NpaPovm.lean on C^d + (C^k x C^d) and the inclusion J"""
+    k, d = len(povm), povm[0].shape[0]
+    cs = [_psd_fun(e, np.sqrt) for e in povm]
+    v = np.vstack(cs)                                   # (k d) x d, block a = C_a
+    n = d + k * d
+    u = np.zeros((n, n), dtype=complex)
+    u[:d, d:] = -v.conj().T
+    u[d:, :d] = v
+    u[d:, d:] = np.eye(k * d) - v @ v.conj().T
+    out = []
+    for a in range(k):
+        pi = np.zeros((n, n), dtype=complex)
+        if a == 0:
+            pi[:d, :d] = np.eye(d)
+        pi[d + a * d:d + (a + 1) * d, d + a * d:d + (a + 1) * d] = np.eye(d)
+        out.append(u.conj().T @ pi @ u)
+    j = np.zeros((n, d), dtype=complex)
+    j[:d, :d] = np.eye(d)
+    return out, j
+
+
+def _seesaw_point_embed(task, res, P, rvar, mvars, code_words, seed):
+    shape, prob, pred = _game_of(task)
+    ao, bo, ai, bi = shape
+    rng = np.random.default_rng([11, seed])
+    d = 2
+    singular = bool(seed % 2)
+    if singular:
+        psi0 = rng.normal(size=d) + 1j * rng.normal(size=d)
+        tau = np.outer(psi0, psi0.conj())
+    else:
+        g = rng.normal(size=(d, d)) + 1j * rng.normal(size=(d, d))
+        tau = g @ g.conj().T
+        tau = tau + 0.05 * np.trace(tau).real * np.eye(d)           # well conditioned: smallest eigenvalue >= 0.045
+    tau = tau / np.trace(tau).real
+    s = _psd_fun(tau, np.sqrt)
+    sigma = [[s @ m @ s for m in _rand_povm(rng, d, ao)] for _ in range(ai)]       # PSD, sum_a = tau
+    bob = [_rand_povm(rng, d, bo) for _ in range(bi)]
+    # the construction of Toq/Proofs/NpaSeesaw.lean: G = pinv(sqrt tau), Pi = G S, M = G sigma G + [a = 0] (1 - Pi), Alice E = M^T, psi = vec S
+    gpi = _psd_fun(tau, lambda t: 0.0 if t < 1e-12 else t ** -0.5)
+    supp = gpi @ s
+    alice = [[(gpi @ sigma[x][a] @ gpi + ((np.eye(d) - supp) if a == 0 else 0)).T for a in range(ao)] for x in range(ai)]
+    pa, ja = zip(*[_naimark(alice[x]) for x in range(ai)])
+    pb, jb = zip(*[_naimark(bob[y]) for y in range(bi)])
+    # the state psi[(i, j)] = S[j, i] as the matrix Psi = S^T (rows: Alice); (P x 1) acts as P @ Psi, (1 x Q) as Psi @ Q^T — the tensor
+    # products are never formed (8 x 8 instead of 64 x 64 matrices)
+    psi2 = ja[0] @ s.T @ jb[0].T
+    vecs = []
+    for w in code_words:
+        v = psi2
+        for sy in reversed(w):
+            if sy.player == "Alice":
+                v = pa[sy.question][sy.answer] @ v
+            elif sy.player == "Bob":
+                v = v @ pb[sy.question][sy.answer].T
+        vecs.append(v.reshape(-1))
+    vmat = np.array(vecs).T
+    rvar.save_value(vmat.conj().T @ vmat)
+    value, worst = 0.0, 0.0
+    for (x, y), var in mvars.items():
+        kxy = np.array([[float(np.real(np.trace(bob[y][b].conj().T @ sigma[x][a]))) for b in range(bo)] for a in range(ao)])
+        kdil = np.array([[float(np.real(np.vdot(psi2, pa[x][a] @ psi2 @ pb[y][b].T))) for b in range(bo)] for a in range(ao)])
+        worst = max(worst, float(np.max(np.abs(kxy - kdil))))
+        var.save_value(kxy)
+        value += prob[x, y] * float(np.sum(pred[:, :, x, y] * kxy))
+    desc = {**_embed_desc("npa_seesaw_point", task, [], []), "seed": int(seed), "dim": d, "tau_singular": singular}
+    res.case(desc, ao >= 2 and bo >= 2 and (ao != bo or ai != bi), f"npa/seesaw-point/k={task['k']}/" + ("tau-singular" if singular else "tau-full-rank"))
+    tol = 1e-7
+    if worst > tol:
+        raise InfraError(f"the dilation of a see-saw point does not reproduce tr(B^H sigma) (max deviation {worst}): contradicts seesaw_point_is_quantum on {desc}")
+    bad = _bad_constraints(P, psd_tol=tol, eq_tol=tol)
+    obj = float(P.objective.expr.value)
+    if bad:
+        res.violation(
+            f"npa_constraints(k={task['k']!r}) for shape {shape}: the moments of a feasible point of the see-saw programs (assemblage in dimension {d}, "
+            f"tau {'singular' if singular else 'full rank'}, seed {seed}; dilated to projectors) violate {len(bad)} emitted constraints beyond {tol}, e.g. {bad[0]} — "
+            f"a value quantum_value_lower_bound can achieve is cut off by the relaxation",
+            {"function": "npa_constraints (see-saw point)", "args": desc, "violated": bad[:6], "theorem": "npa_sound_seesaw, seesaw_point_is_quantum, naimark_dilation"})
+    if abs(obj - value) > tol:
+        res.violation(f"captured NPA objective {obj!r} differs from the see-saw value {value!r} of the point (seed {seed})",
+                      {"function": "commuting_measurement_value_upper_bound (objective, see-saw point)", "args": desc, "impl": obj, "model": value,
+                       "theorem": "seesaw_value_le_npa_bound"})
 
 
 TAU0 = [np.array([[1.0, 0.0], [0.0, 0.0]], dtype=complex), np.array([[0.75, 0.25 - 0.25j], [0.25 + 0.25j, 0.25]], dtype=complex)]
@@ -1251,9 +1395,13 @@ def run(ctx, model_ok=True):
         ctx.extra["exhaustive_small_space"] = "all 4096 0/1 predicates on shapes (2,3,2,1) and (3,2,1,2)"
     run_sdp(ctx, tasks)
     npa_embedding(ctx, quick)
+    # the two programs of quantum_value_lower_bound (captured, exact points embedded, per-constraint controls) and its outer loop
+    c07_seesaw.seesaw_stream(ctx, quick)
 
 
 def replay(ctx, rec):
+    if c07_seesaw.replay_seesaw(ctx, rec):
+        return
     a = rec.get("args", {})
     fn = a.get("fn")
     if fn == "classical_value":
@@ -1266,16 +1414,16 @@ def replay(ctx, rec):
     elif fn == "update_odometer":
         check_odometer(ctx, a["old"], a["lim"])
     elif fn == "from_bcs_game":
-        check_bcs(ctx, a["n"], a["constraints"], a.get("dtype", "int"))
+        check_bcs(ctx, a["n"], a["constraints"], a.get("dtype", "int"), a.get("reps", 1))
     elif fn == "npa_words":
         check_words(ctx, a["ao"], a["ai"], a["bo"], a["bi"], a["k"])
     elif fn == "npa_reduce":
         check_reduce_batch(ctx, [a["word"]], "replay")
-    elif fn in ("npa_embed", "ns_embed", "npa_quantum"):
+    elif fn in ("npa_embed", "ns_embed", "npa_quantum", "npa_seesaw_point"):
         task = {"shape": a["shape"], "kind": a["kind"], "k": a.get("k"), "prob": [float(_frac(x)) for x in a["prob"]],
                 "pred": [float(_frac(x)) for x in a["pred"]], "strategies": [(a["f"], a["g"])] if a.get("f") else [],
-                "quantum_seeds": [a["seed"]] if fn == "npa_quantum" else []}
-        if fn == "npa_quantum":
+                "quantum_seeds": [a["seed"]] if fn in ("npa_quantum", "npa_seesaw_point") else []}
+        if fn in ("npa_quantum", "npa_seesaw_point"):
             task["strategies"] = [([0] * a["shape"][2], [0] * a["shape"][3])]
         res = Result()
         (work_ns_embed if fn == "ns_embed" else work_npa_embed)(task, res)
